@@ -112,9 +112,10 @@ impl TryFrom<Config> for frame::Settings {
             }
         }
 
+        // Values a variable-length integer cannot carry mean "no limit": send the largest one.
         settings.insert(
             frame::SettingId::MAX_HEADER_LIST_SIZE,
-            max_field_section_size,
+            max_field_section_size.min(VarInt::MAX.0),
         )?;
         settings.insert(
             frame::SettingId::ENABLE_CONNECT_PROTOCOL,
@@ -127,7 +128,7 @@ impl TryFrom<Config> for frame::Settings {
         settings.insert(frame::SettingId::H3_DATAGRAM, enable_datagram as u64)?;
         settings.insert(
             frame::SettingId::WEBTRANSPORT_MAX_SESSIONS,
-            max_webtransport_sessions,
+            max_webtransport_sessions.min(VarInt::MAX.0),
         )?;
 
         Ok(settings)
